@@ -25,6 +25,7 @@
    Proofs: Proofs/PDAConvProofs.v, Proofs/PDA2CFGProofs.v, Proofs/PDA2CFGFinal.v. *)
 From GT Require Import Base.Prelude Model.NFA Model.PDA Model.CFG Model.PDAConv
   Proofs.PDAConvProofs Proofs.PDA2CFGProofs Proofs.PDA2CFGFinal.
+From GT Require Model.Tokens Model.Naming Proofs.NamingProofs.
 
 (* one accepting state *)
 Theorem C10_one_accepting_state : forall (states : list nat) (P P' : pda) (rest : list nat),
@@ -32,6 +33,13 @@ Theorem C10_one_accepting_state : forall (states : list nat) (P P' : pda) (rest 
   pda_wf P' /\ length (dedup (pF P')) = 1 /\ pSg P' = pSg P /\ pGm P' = pGm P /\ peps P' = peps P /\ pq0 P' = pq0 P /\
   (forall w, pda_lang P' w <-> pda_lang P w).
 Proof. exact to_one_accept_correct. Qed.
+(* ---- names of the grammar variables of pda_to_cfg ("{}'{}".format(p, q), Model/Naming.v): the model uses p*40+q
+   (hypothesis small_states); for state names without a quote (all \w+ names) different pairs get different strings ---- *)
+Theorem C10_variable_names_injective : forall p q p' q' : Tokens.token,
+  ~ In 39 p -> ~ In 39 q -> ~ In 39 p' -> ~ In 39 q' ->
+  Naming.var_name p q = Naming.var_name p' q' -> p = p' /\ q = q'.
+Proof. exact NamingProofs.var_name_inj. Qed.
+
 Print Assumptions C10_one_accepting_state.
 
 (* accept on empty stack: same language, a single accepting state, and that state is only ever reached with an
@@ -108,3 +116,4 @@ Theorem C10_push_pop_dummy_must_differ_from_epsilon :
   exists P' rest, to_push_pop 9 [2; 3] P = Some (P', rest) /\ pda_wf_b P' = false /\ pda_is_push_pop P' = false.
 Proof. exact to_push_pop_dummy_eps_cex. Qed.
 Print Assumptions C10_push_pop_dummy_must_differ_from_epsilon.
+Print Assumptions C10_variable_names_injective.
